@@ -265,14 +265,19 @@ def check_shadowing(case):
             j = parent_of[j]
         return False
 
-    query = case["query"]
+    # the queried alias: one that occurs in the searched subtree if possible (drawn index), else any pool word / unknown word
+    present = sorted(set().union(*[eff[j] for j in range(len(classes)) if in_subtree(j)]))
+    if case["query_present"] and present:
+        query = present[case["query"] % len(present)]
+    else:
+        query = (POOL + ["zz"])[case["query"] % (len(POOL) + 1)]
     matching = [j for j in range(len(classes)) if in_subtree(j) and query in eff[j]]
     args, kwargs = case["args"], case["kwargs"]
     desc = "from_alias(%r) on a forest of %d classes from class #%d" % (query, len(classes), start)
     if not matching:
         expect_raises(desc, ValueError, classes[start].from_alias, query, *args, **kwargs)
         labels.add("unknown")
-        return {"nontrivial": len(classes) > 1, "labels": sorted(labels)}
+        return {"nontrivial": False, "labels": sorted(labels)}
     want = max(matching)  # registered last
     obj = call(desc, classes[start].from_alias, query, *args, **kwargs)
     got = classes.index(type(obj)) if type(obj) in classes else None
@@ -301,14 +306,19 @@ def _is_ancestor(parent_of, a, b):
 
 
 def shadowing_cases():
-    aliases = st.lists(st.sampled_from(POOL), min_size=0, max_size=3, unique=True)
+    aliases = st.one_of(
+        st.lists(st.sampled_from(POOL), min_size=1, max_size=3, unique=True),
+        st.lists(st.sampled_from(POOL[:2]), min_size=1, max_size=2, unique=True),
+        st.just([]),
+    )
     node = st.fixed_dictionaries({"parent": st.integers(0, 8), "aliases": aliases, "own": st.sampled_from([True, True, True, False])})
     return st.fixed_dictionaries(
         {
             "root_aliases": st.one_of(st.just([]), aliases),
-            "nodes": st.lists(node, min_size=0, max_size=10),
-            "query": st.sampled_from(POOL + ["zz"]),
-            "start": st.one_of(st.just(0), st.integers(0, 10)),
+            "nodes": st.one_of(st.lists(node, min_size=2, max_size=10), st.lists(node, min_size=0, max_size=4)),
+            "query": st.integers(0, 11),
+            "query_present": st.sampled_from([True, True, True, False]),
+            "start": st.one_of(st.just(0), st.just(0), st.integers(1, 10)),
             "args": st.lists(st.integers(0, 9), max_size=2),
             "kwargs": st.dictionaries(st.sampled_from(["x", "y", "name"]), st.integers(0, 9), max_size=2),
         }
@@ -712,7 +722,7 @@ def twin_cases():
             "use_log": st.booleans(),
             "use_power": st.booleans(),
             "kaldi_shift": st.booleans(),
-            "signal": signal_specs(st.one_of(st.integers(0, 700), st.integers(0, 40), st.integers(100, 400))),
+            "signal": signal_specs(st.one_of(st.integers(200, 700), st.integers(100, 400), st.integers(0, 700), st.integers(0, 40))),
         }
     )
 
@@ -756,6 +766,6 @@ def clauses(tier):
         Clause(
             "json_twin", check_twin,
             "non-trivial = depth-3 tree with a non-default argument at every level and >= 1 frame computed",
-            twin_cases, quick=350, thorough=8000,
+            twin_cases, quick=400, thorough=8000,
         ),
     ]
